@@ -301,3 +301,35 @@ func mergeEvidence(prev, cur map[string]interface{}, prefix string) map[string]i
 	prev["violations"] = int(va + vb)
 	return prev
 }
+
+// Guard runs a check body and turns a panic of the harness itself (typically a fixture that is built with real
+// transactions and blocks and can no longer be built on the tree under test) into a reported violation instead of a
+// crash: on the unchanged tree this never happens; on a changed tree it means ordinary valid operations of the fixture
+// stopped working, which the check cannot tell apart from a broken property, so it says so and exits 1.
+func (r *Run) Guard(body func()) {
+	defer func() {
+		if p := recover(); p != nil {
+			msg := fmt.Sprint(p)
+			first := msg
+			if i := strings.IndexByte(first, '\n'); i >= 0 {
+				first = first[:i]
+			}
+			if len(first) > 200 {
+				first = first[:200]
+			}
+			r.Violate(Violation{Key: "check-could-not-run", What: "the check's own fixture/harness panicked on this tree (its setup uses only ordinary valid operations): " + first,
+				Replay: map[string]interface{}{"panic": msg}})
+			r.Set("exhaustive", false)
+			r.Set("harness_panic", first)
+			for _, k := range []string{"states", "transitions", "traces_validated_against_impl"} {
+				r.mu.Lock()
+				_, ok := r.Coverage[k]
+				r.mu.Unlock()
+				if !ok {
+					r.Set(k, int64(0))
+				}
+			}
+		}
+	}()
+	body()
+}
